@@ -1,6 +1,7 @@
 package main
 
 import (
+	"strings"
 	"bytes"
 	"go/types"
 	"io"
@@ -17,15 +18,135 @@ import (
 type yamlDecState struct {
 	reader Value
 	dec    *yaml.Decoder
+	// symbolic text: the library's own parser object (yaml.v3's *parser, created and driven through its real SSA)
+	symParser Value
 }
 
 type yamlEncState struct {
 	writer Value
 	indent int
+	// symbolic node text: the library's own encoder object (yaml.v3's *encoder, driven through its real SSA)
+	symEnc Value
 }
 
 func (in *Interp) yamlNodeType() types.Type {
 	return in.eng.prog.ImportedPackage("gopkg.in/yaml.v3").Type("Node").Type()
+}
+
+// drainReaderValues reads the interpreted reader to its end; symbolic reports whether some byte is no constant.
+func (in *Interp) drainReaderValues(r Value, caller *frame, site ssa.Instruction) (vals []Value, symbolic bool) {
+	ri := r.(Iface)
+	if ri.t == nil {
+		return nil, false
+	}
+	m := in.hasMethod(ri.t, "Read")
+	if m == nil {
+		unsup("yaml decoder input is not an io.Reader")
+	}
+	buf := in.makeSlice(types.Typ[types.Byte], 512, 512)
+	for iter := 0; iter < 10000; iter++ {
+		res := in.callFn(m, []Value{ri.v, buf}, nil, caller, site).(Tuple)
+		n := in.concreteInt(res[0], "Read count")
+		for i := 0; i < n; i++ {
+			v := *buf.at(i).slot()
+			if _, ok := v.(Int); !ok {
+				symbolic = true
+			}
+			vals = append(vals, v)
+		}
+		if e, ok := res[1].(Iface); ok && e.t != nil {
+			break
+		}
+		if n == 0 {
+			break
+		}
+	}
+	return vals, symbolic
+}
+
+// symbolicYamlDecode drives yaml.v3's own scanner, parser and node builder (gopkg.in/yaml.v3 decode.go, parserc.go,
+// scannerc.go, readerc.go: their real SSA) over text that holds symbolic bytes. It is Decoder.Decode(*Node) without
+// the reflection at its end: parser.parse() builds the *Node, which is copied into the target; a yamlError panic is
+// the returned error (handleErr), any other panic propagates.
+func (in *Interp) symbolicYamlDecode(st *yamlDecState, data []Value, target Pointer, c *frame, s ssa.Instruction) Value {
+	pkg := in.eng.prog.ImportedPackage("gopkg.in/yaml.v3")
+	if !in.eng.interpPkg("gopkg.in/yaml.v3") {
+		unsup("YAML text with symbolic bytes reaches the yaml.v3 parser")
+	}
+	if st.symParser == nil {
+		st.symParser = in.callFn(pkg.Func("newParser"), []Value{in.sliceOf(types.Typ[types.Byte], data)}, nil, c, s)
+	}
+	parserT := pkg.Type("parser").Type()
+	parse := in.eng.prog.LookupMethod(types.NewPointer(parserT), pkg.Pkg, "parse")
+	var node Value
+	errVal := in.yamlRecover(func() { node = in.callFn(parse, []Value{st.symParser}, nil, c, s) })
+	if errVal != nil {
+		return errVal
+	}
+	np := node.(Pointer)
+	if np.isNil() {
+		return in.ioEOF()
+	}
+	target.store(np.load())
+	return Iface{}
+}
+
+// yamlRecover runs f and turns a yamlError panic of the interpreted library into the error it carries (handleErr).
+func (in *Interp) yamlRecover(f func()) (errVal Value) {
+	defer func() {
+		if r := recover(); r != nil {
+			gp, ok := r.(goPanic)
+			if !ok {
+				panic(r)
+			}
+			if ifc, ok := gp.val.(Iface); ok && ifc.t != nil && typeStr(ifc.t) == "gopkg.in/yaml.v3.yamlError" {
+				errVal = ifc.v.(*Struct).f[0]
+				return
+			}
+			panic(r)
+		}
+	}()
+	f()
+	return nil
+}
+
+// symbolicYamlEncode is Encoder.Encode(*Node) without the reflection in front of it: the library's own encoder
+// (encode.go, emitterc.go, writerc.go: real SSA) is created over the interpreted writer and fed the node exactly
+// as marshalDoc does — a DocumentNode directly, anything else between an implicit document start and end.
+func (in *Interp) symbolicYamlEncode(st *yamlEncState, node Pointer, c *frame, s ssa.Instruction) Value {
+	pkg := in.eng.prog.ImportedPackage("gopkg.in/yaml.v3")
+	if !in.eng.interpPkg("gopkg.in/yaml.v3") {
+		unsup("symbolic text reaches the yaml.v3 emitter")
+	}
+	encT := pkg.Type("encoder").Type()
+	method := func(name string) *ssa.Function {
+		return in.eng.prog.LookupMethod(types.NewPointer(encT), pkg.Pkg, name)
+	}
+	errVal := in.yamlRecover(func() {
+		if st.symEnc == nil {
+			st.symEnc = in.callFn(pkg.Func("newEncoderWithWriter"), []Value{st.writer}, nil, c, s)
+			ep := st.symEnc.(Pointer)
+			ep.sub(structFieldIndex(encT, "indent")).store(Int{uint64(st.indent)})
+		}
+		e := st.symEnc.(Pointer)
+		in.callFn(method("init"), []Value{e}, nil, c, s)
+		nt := in.yamlNodeType()
+		kind := (*node.sub(structFieldIndex(nt, "Kind")).slot())
+		if k, ok := kind.(Int); ok && k.v == uint64(yaml.DocumentNode) {
+			in.callFn(method("node"), []Value{e, node, ""}, nil, c, s)
+			return
+		}
+		ev := e.sub(structFieldIndex(encT, "event"))
+		in.callFn(pkg.Func("yaml_document_start_event_initialize"), []Value{ev, Pointer{}, Slice{isNil: true}, true}, nil, c, s)
+		in.callFn(method("emit"), []Value{e}, nil, c, s)
+		in.callFn(method("node"), []Value{e, node, ""}, nil, c, s)
+		in.callFn(pkg.Func("yaml_document_end_event_initialize"), []Value{ev, true}, nil, c, s)
+		in.callFn(method("emit"), []Value{e}, nil, c, s)
+	})
+	if errVal != nil {
+		return errVal
+	}
+	return Iface{}
 }
 
 func (in *Interp) drainReader(r Value, caller *frame, site ssa.Instruction) []byte {
@@ -158,14 +279,24 @@ func init() {
 	})
 	reg("(*gopkg.in/yaml.v3.Decoder).Decode", func(in *Interp, fn *ssa.Function, a []Value, c *frame, s ssa.Instruction) (Value, bool) {
 		st := nativeState(a[0]).(*yamlDecState)
-		if st.dec == nil {
-			data := in.drainReader(st.reader, c, s)
-			st.dec = yaml.NewDecoder(bytes.NewReader(data))
-		}
 		target := a[1].(Iface)
 		nt := in.yamlNodeType()
 		if target.t == nil || !types.Identical(target.t, types.NewPointer(nt)) {
 			unsup("yaml.Decoder.Decode into %v (only *yaml.Node is modelled)", typeStr(target.t))
+		}
+		if st.dec == nil && st.symParser == nil {
+			vals, symbolic := in.drainReaderValues(st.reader, c, s)
+			if symbolic {
+				return in.symbolicYamlDecode(st, vals, target.v.(Pointer), c, s), true
+			}
+			data := make([]byte, len(vals))
+			for i, v := range vals {
+				data[i] = byte(v.(Int).v)
+			}
+			st.dec = yaml.NewDecoder(bytes.NewReader(data))
+		}
+		if st.symParser != nil {
+			return in.symbolicYamlDecode(st, nil, target.v.(Pointer), c, s), true
 		}
 		var node yaml.Node
 		var err error
@@ -197,6 +328,14 @@ func init() {
 		return nil, true
 	})
 	reg("(*gopkg.in/yaml.v3.Encoder).Close", func(in *Interp, fn *ssa.Function, a []Value, c *frame, s ssa.Instruction) (Value, bool) {
+		st := nativeState(a[0]).(*yamlEncState)
+		if st.symEnc != nil {
+			pkg := in.eng.prog.ImportedPackage("gopkg.in/yaml.v3")
+			finish := in.eng.prog.LookupMethod(types.NewPointer(pkg.Type("encoder").Type()), pkg.Pkg, "finish")
+			if errVal := in.yamlRecover(func() { in.callFn(finish, []Value{st.symEnc}, nil, c, s) }); errVal != nil {
+				return errVal, true
+			}
+		}
 		return Iface{}, true
 	})
 	reg("(*gopkg.in/yaml.v3.Encoder).Encode", func(in *Interp, fn *ssa.Function, a []Value, c *frame, s ssa.Instruction) (Value, bool) {
@@ -206,7 +345,26 @@ func init() {
 		if v.t == nil || !types.Identical(v.t, types.NewPointer(nt)) {
 			unsup("yaml.Encoder.Encode of %v (only *yaml.Node is modelled)", typeStr(v.t))
 		}
-		node := in.yamlNodeFromEngine(v.v.(Pointer), map[*Object]*yaml.Node{})
+		if st.symEnc != nil {
+			return in.symbolicYamlEncode(st, v.v.(Pointer), c, s), true
+		}
+		var node *yaml.Node
+		symbolicText := false
+		func() {
+			defer func() {
+				if r := recover(); r != nil {
+					if u, ok := r.(unsupported); ok && strings.Contains(u.msg, "reaches the yaml.v3 emitter") {
+						symbolicText = true
+						return
+					}
+					panic(r)
+				}
+			}()
+			node = in.yamlNodeFromEngine(v.v.(Pointer), map[*Object]*yaml.Node{})
+		}()
+		if symbolicText {
+			return in.symbolicYamlEncode(st, v.v.(Pointer), c, s), true
+		}
 		var buf bytes.Buffer
 		enc := yaml.NewEncoder(&buf)
 		enc.SetIndent(st.indent)
